@@ -347,7 +347,8 @@ class HTMLSerializer(object):
                             yield self.encodeStrict(quote_char)
                         else:
                             yield self.encode(v)
-                if name in voidElements and self.use_trailing_solidus:
+                if (name in voidElements and self.use_trailing_solidus and
+                        token.get("namespace") in (None, namespaces["html"])):
                     if self.space_before_trailing_solidus:
                         yield self.encodeStrict(" /")
                     else:
